@@ -10,6 +10,7 @@ import WpModel.Model.WriteSinks
 import WpModel.Model.RenderState
 import WpModel.Model.DiskCache
 import WpModel.Model.WriteState
+import WpModel.Model.TextDecoration
 
 namespace Wp.Drive.C19
 open Wp
@@ -176,15 +177,17 @@ def optNat? : Sx → Option (Option Nat)
   | .atom "none" => some none
   | x => x.nat?.map some
 
-/-- `(url raises)` | `(url malformed)` | `(url ok <mime|none> <file|none> <blob> <svgOk> <fmt|none> <exifRotates>)` -/
+/-- `(url raises)` | `(url malformed)` |
+`(url ok <mime|none> <file|none> <blob> <svgOk> <fmt|none> <exifRotates> <encodable>)` -/
 def resource? : Sx → Option (String × Fetched)
   | .list [u, .atom "raises"] => do pure (← u.atom?, .raises)
   | .list [u, .atom "malformed"] => do pure (← u.atom?, .malformed)
-  | .list [u, .atom "ok", mime, file, blob, svg, fmt, exif] => do
+  | .list [u, .atom "ok", mime, file, blob, svg, fmt, exif, enc] => do
     let exif ← exif.bool?
+    let enc ← enc.bool?
     let raster : Option Raster ← match fmt with
       | .atom "none" => some none
-      | .atom s => (fmt? s).map (fun f => some (Raster.mk f exif))
+      | .atom s => (fmt? s).map (fun f => some (Raster.mk f exif enc))
       | _ => none
     pure (← u.atom?, .ok (← optStr? mime) (← optStr? file) ⟨← blob.nat?, ← svg.bool?, raster⟩)
   | _ => none
@@ -367,7 +370,11 @@ def handleControl (cmd : String) (args : List Sx) : Option String :=
         " collector=" ++ label callers created o.targetCollector ++ " stylefor=" ++ label callers created o.styleFor ++
         " context=" ++ label callers created o.context ++
         " sheets=" ++ ",".intercalate (o.userSheets.map (label callers created)) ++
-        " document=" ++ label callers created o.document
+        " document=" ++ label callers created o.document ++
+        -- containers of this render's `LayoutContext` that an earlier render's context holds too: the context and
+        -- everything its constructor creates are allocated by the render (`C19.context_state_fresh`)
+        " shared=" ++ ",".intercalate ((outs.takeWhile (· != o)).filterMap (fun e =>
+          if e.context = o.context then some "context" else none))
     pure (" || ".intercalate (outs.map one))
   | "echo", .atom s :: _ => some s
   | _, _ => none
@@ -407,8 +414,31 @@ def handleWriteState (cmd : String) (args : List Sx) : Option String :=
 
 end writestate
 
+/-! ### text-decoration propagation -/
+section textdeco
+open Wp.TextDecoration
+
+/-- `none` | `(line…)` (a set) | `v<n>` (any other value) -/
+def decoVal? : Sx → Option Val
+  | .atom "none" => some .none
+  | .list ls => do
+    let names ← allSome Sx.atom? ls
+    let lines ← allSome Line.ofString? names
+    pure (.lines (fun l => lines.contains l))
+  | .atom s => if s.startsWith "v" then (s.drop 1).toNat?.map .other else Option.none
+
+/-- `textdeco <key> <value> <parent> <cascaded>` → the canonical printing of the result. -/
+def handleTextDeco (cmd : String) (args : List Sx) : Option String :=
+  match cmd, args with
+  | "textdeco", [k, v, p, c] => do
+    let key ← k.atom?.bind Key.ofString?
+    pure (textDecoration key (← decoVal? v) (← decoVal? p) (← c.bool?)).render
+  | _, _ => none
+
+end textdeco
+
 def handle (cmd : String) (args : List Sx) : Option String :=
   (handlePages cmd args).orElse fun _ => (handleImages cmd args).orElse fun _ =>
-    (handleControl cmd args).orElse fun _ => handleWriteState cmd args
+    (handleControl cmd args).orElse fun _ => (handleWriteState cmd args).orElse fun _ => handleTextDeco cmd args
 
 end Wp.Drive.C19
